@@ -339,6 +339,13 @@ class Run(object):
             pass
         self.cov["distinct_nontrivial"] = len(self._distinct)
         rdir = os.path.join(VERIF, "replays", self.pid)
+        if os.path.isdir(rdir):
+            for old in os.listdir(rdir):          # replay files of earlier runs do not describe this run
+                if old.startswith("violation_") and old.endswith(".json"):
+                    try:
+                        os.unlink(os.path.join(rdir, old))
+                    except OSError:
+                        pass
         for f, n in self.known_hits.values():
             print("KNOWN-FINDING: property=%s %s (%d occurrences this run)" % (self.pid, f["what"], n))
         if self.violations:
